@@ -340,13 +340,24 @@ func c01Concat(c c01ConcatCase) (fs []rep.Finding) {
 				fs = append(fs, rep.F("Txs.ReadFrom|field-mismatch", d))
 			}
 		}
+		// the same list variable parses another list (the first transaction alone, then none):
+		// what it holds afterwards is what the bytes just read contain
+		one := append([]byte{0x01}, all[:refs[0].Used]...)
+		if n, err := txs.ReadFrom(bytes.NewReader(one)); err != nil || int(n) != len(one) || len(txs) != 1 {
+			fs = append(fs, rep.F("Txs.ReadFrom|into-used-list", fmt.Sprintf("a one-transaction list parsed into a list variable used before: err=%v n=%d count=%d", err, n, len(txs))))
+		} else if d := cmpTx(txs[0], refs[0].Tx, refs[0].Extended); d != "" {
+			fs = append(fs, rep.F("Txs.ReadFrom|into-used-list", d))
+		}
+		if n, err := txs.ReadFrom(bytes.NewReader([]byte{0x00})); err != nil || n != 1 || len(txs) != 0 {
+			fs = append(fs, rep.F("Txs.ReadFrom|into-used-list", fmt.Sprintf("an empty list parsed into a list variable used before: err=%v n=%d count=%d", err, n, len(txs))))
+		}
 	}
 	return
 }
 
 func init() {
 	p := register(&Prop{ID: "C01", Level: "exploration",
-		Rule: "exhaustive over: (1) product of shapes nIn,nOut in 0..3 x per-input {vout,seq in 3 values, script len 0/1/2/nil, prev value 2, prev script nil/empty/1} x per-output {4 values, len 0/1/2} x version,locktime in 7 boundary values each, plus one-dimension-at-a-time boundary cross (counts and script lengths 252,253,65535,65536); each through Bytes/ExtendedBytes/TxID/NewTxFromBytes/NewTxFromStream/ReadFrom/Clone against the reference codec; (2) every such serialisation with each length prefix (alone and in pairs) re-encoded in each wider class; (3) all strings <version>[marker]x with x of length<=8/9 (quick/thorough) over {00,01,02,EF,FD,FE,FF}; (4) all ordered pairs/triples of 12 serialisations x 0..2 trailing bytes through stream, reader and counted-list decoding with the count in every varint class. distinct_nontrivial = distinct serialisations/strings on which the library accepted",
+		Rule: "exhaustive over: (1) product of shapes nIn,nOut in 0..3 x per-input {vout,seq in 3 values, script len 0/1/2/nil, prev value 2, prev script nil/empty/1} x per-output {4 values, len 0/1/2} x version,locktime in 7 boundary values each, plus one-dimension-at-a-time boundary cross (counts and script lengths 252,253,65535,65536); each through Bytes/ExtendedBytes/TxID/NewTxFromBytes/NewTxFromStream/ReadFrom/Clone against the reference codec; (2) every such serialisation with each length prefix (alone and in pairs) re-encoded in each wider class; (3) all strings <version>[marker]x with x of length<=8/9 (quick/thorough) over {00,01,02,EF,FD,FE,FF}; (4) all ordered pairs/triples of 12 serialisations x 0..2 trailing bytes through stream, reader and counted-list decoding with the count in every varint class, the list variable then parsing a shorter and an empty list. distinct_nontrivial = distinct serialisations/strings on which the library accepted",
 	})
 	spStruct := NewSpace(p, "struct", c01Struct)
 	spBytes := NewSpace(p, "bytes", c01Bytes)
